@@ -575,10 +575,12 @@ def c18_snapshot(detector, tag: str = "") -> None:
     (None = uninitialised), for the harness to compare with a stored detector."""
     snap = {}
     for name in ("photon", "pixel", "signal", "image", "phase"):
-        cont = getattr(detector, "_" + name, None)
+        if name == "phase" and not hasattr(type(detector), "phase"):
+            continue
+        cont = container(detector, name)
         if cont is None:
             continue
-        arr = getattr(cont, "_array", None)
+        arr = held_array(cont)
         snap[name] = None if arr is None else np.array(arr, copy=True)
     snap["charge"] = np.array(detector.charge.array, copy=True)
     LOG.append(("c18", str(tag), snap))
